@@ -103,7 +103,7 @@ CLAIMED = {
 
 # properties whose check is registered now (others are listed under not_applicable until their check lands)
 READY = set(os.environ.get("VERIF_READY", "").split()) or {
-    "C01", "C02", "C03", "C04", "C05", "C07", "C08", "C09", "C10", "C11", "C12", "C13", "C14", "C15", "C16", "C17", "C18", "C19", "C20",
+    "C01", "C02", "C03", "C04", "C05", "C06", "C07", "C08", "C09", "C10", "C11", "C12", "C13", "C14", "C15", "C16", "C17", "C18", "C19", "C20",
 }
 
 NOT_YET = "check not built yet in this round (planned in DESIGN.md section 3); not claimed until its check is registered"
